@@ -241,7 +241,11 @@ partial def loop (h : IO.FS.Stream) (s : DS) : IO Unit := do
       IO.println s!"R err={err} cache={if err == 0 then toString cache else "?"} st={if err == 0 then toString st else "?"} nb={msgs} offs=- ref=-"
     else
       let done := (r.evs.filter (· == Ev.complete)).length
-      let offs := String.intercalate "," ((s.bounds.take done).map toString)
+      -- message boundaries as the model parser places them (byte-at-a-time run); for long streams (quadratic on
+      -- lists) the cumulative rendered lengths, which c07_message proves to be the same
+      let offl := if s.stream.length ≤ 2500 then boundaries (machine g) (· == Ev.complete) (Http.init g) [] s.stream 0
+                  else s.bounds.take done
+      let offs := String.intercalate "," (offl.map toString)
       let ref := String.intercalate ";" (s.msgs.map showNorm)
       -- instances of the C07 theorems, evaluated on this case (cannot fail for well-formed messages)
       let specEvs := (s.msgs.map eventsOf).flatten
